@@ -33,7 +33,10 @@ type c19Case struct {
 	Streams        int
 	Seconds        int
 	Unordered      bool // datagram mode: data becomes readable the moment the limiter lets the frame through
-	Writers        []c19Writer
+	// ParallelAdmit: the user is not active yet and its sessions are admitted at the same time, each by its own
+	// goroutine doing what dispatchConnection does (GetUser, then GetSession), while the user database "takes a while"
+	ParallelAdmit bool `json:",omitempty"`
+	Writers       []c19Writer
 }
 
 type c19Ev struct {
@@ -91,13 +94,57 @@ func c19Run(t *testing.T) func(sc c19Case) (vk.Result, error) {
 			copy(a[:], uid)
 			fm.users[a] = &vFakeUser{UpRate: sc.RxRate, DownRate: sc.TxRate, UpCredit: 1 << 50, DownCredit: 1 << 50, Expiry: 1 << 40, Cap: 100}
 			panel := vPanel(fm)
-			user, err := panel.GetUser(uid)
-			if err != nil {
-				verr = fmt.Errorf("harness: GetUser: %v", err)
-				return
-			}
 			var key [32]byte
 			key[3] = 9
+			srvSesh := make([]*mux.Session, sc.Sessions)
+			mkCfg := func() mux.SessionConfig {
+				obfs, _ := mux.MakeObfuscator(mux.EncryptionMethodPlain, key)
+				return mux.SessionConfig{Obfuscator: obfs, MsgOnWireSizeLimit: appDataMaxLength, Unordered: sc.Unordered}
+			}
+			if sc.ParallelAdmit {
+				fm.userYield, fm.authYield = 300, 300
+				admitErr := make([]error, sc.Sessions)
+				var awg sync.WaitGroup
+				for i := range srvSesh {
+					awg.Add(1)
+					go func(i int) {
+						defer awg.Done()
+						for {
+							u, err := panel.GetUser(uid)
+							if err != nil {
+								admitErr[i] = err
+								return
+							}
+							s, _, err := u.GetSession(uint32(i+1), mkCfg())
+							if err == ErrUserTerminated {
+								continue
+							}
+							srvSesh[i], admitErr[i] = s, err
+							return
+						}
+					}(i)
+				}
+				awg.Wait()
+				for _, e := range admitErr {
+					if e != nil {
+						verr = fmt.Errorf("harness: admission: %v", e)
+						return
+					}
+				}
+			} else {
+				user, err := panel.GetUser(uid)
+				if err != nil {
+					verr = fmt.Errorf("harness: GetUser: %v", err)
+					return
+				}
+				for i := range srvSesh {
+					srvSesh[i], _, err = user.GetSession(uint32(i+1), mkCfg())
+					if err != nil {
+						verr = fmt.Errorf("harness: GetSession: %v", err)
+						return
+					}
+				}
+			}
 			type pair struct {
 				srv, cli *mux.Session
 				sst, cst []*mux.Stream
@@ -106,14 +153,8 @@ func c19Run(t *testing.T) func(sc c19Case) (vk.Result, error) {
 			var links []*vk.Link
 			var wg sync.WaitGroup
 			for i := 0; i < sc.Sessions; i++ {
-				obfs, _ := mux.MakeObfuscator(mux.EncryptionMethodPlain, key)
-				cfg := mux.SessionConfig{Obfuscator: obfs, MsgOnWireSizeLimit: appDataMaxLength, Unordered: sc.Unordered}
-				srv, _, err := user.GetSession(uint32(i+1), cfg)
-				if err != nil {
-					verr = fmt.Errorf("harness: GetSession: %v", err)
-					return
-				}
-				cli := mux.MakeSession(uint32(i+1), cfg)
+				srv := srvSesh[i]
+				cli := mux.MakeSession(uint32(i+1), mkCfg())
 				p := &pair{srv: srv, cli: cli}
 				for c := 0; c < sc.Conns; c++ {
 					l := vk.NewLink(len(links), true)
@@ -342,6 +383,9 @@ func c19Run(t *testing.T) func(sc c19Case) (vk.Result, error) {
 				res.Labels = append(res.Labels, "several-sessions-and-conns-share-the-allowance")
 			}
 			res.Labels = append(res.Labels, fmt.Sprintf("sessions=%d", sc.Sessions))
+			if sc.ParallelAdmit {
+				res.Labels = append(res.Labels, "sessions-admitted-simultaneously")
+			}
 			vk.AddLabel("C19", "Rates", "tx-events", int64(len(txEvs)))
 			vk.AddLabel("C19", "Rates", "rx-events", int64(len(rx)))
 		})
@@ -369,6 +413,7 @@ func c19Gen(rt *rapid.T) c19Case {
 		Streams:   rapid.OneOf(rapid.IntRange(1, 4), rapid.IntRange(1, 10)).Draw(rt, "streams"),
 		Unordered: rapid.Bool().Draw(rt, "unordered"),
 	}
+	sc.ParallelAdmit = sc.Sessions >= 2 && rapid.Bool().Draw(rt, "paralleladmit")
 	maxRate := sc.RxRate
 	if sc.TxRate > maxRate {
 		maxRate = sc.TxRate
